@@ -386,7 +386,8 @@ impl ActionsGenerator for ProductionActionsGenerator<'_> {
                                     body.push(parse_quote! { #a_i });
                                 }
                                 [a] => {
-                                    let a_i = format_ident!("{}", to_snake_case(&a.name));
+                                    // The same name as given to the action argument.
+                                    let a_i = format_ident!("{}", a.name);
                                     if recursive.get() {
                                         body.push(parse_quote! { vec![Box::new(#a_i)] });
                                     } else {
